@@ -617,7 +617,7 @@ class ArrayCollection:
 
         # check shape
         axis = layout.index(Ellipsis)
-        common = list(shape[axis : len(shape) - len(layout) + 1])
+        common = list(shape[axis : len(shape) - (len(layout) - axis - 1)])
         shared = self.shape
         diff = len(shared) - len(common)
 
